@@ -364,10 +364,10 @@ def c_literal_bytes(body):
 
 # names with characters that need escaping in a C string literal - also directly followed by characters that could continue an escape
 # sequence (hex digits after a byte >= 0x80 or a control character, octal digits, a question mark)
-NASTY = ['plain', 'quo"te', 'back\\slash', 'new\nline', 'tab\tq"\\', 'pct%s%d', 'utf\xc3\xa9', 'n\xc3\xa9e', '\x01' + '1f', '\x7fF0', 'a\xffe9', 'q??/z', '\x1b[0m7']
+NASTY = ['plain', 'quo"te', 'back\\slash', 'new\nline', 'tab\tq"\\', 'pct%s%d', 'utf\xc3\xa9', 'n\xc3\xa9e', '\x01' + '1f', '\x7fF0', 'a\xffe9', 'q??/z', '\x1b[0m7', '??0mem', '?7']
 
 
-def check_string_positions(chk, tus):
+def check_string_positions(chk, tus, rule='R11.7'):
     it = c06.make(tus)
     for name in NASTY:
         mk = lambda: M.build(it, types=[([], [])], func_imports=[], functions=[0], memory_imports=[(name, 'mem' + name, 1, 2, False)],
@@ -382,7 +382,7 @@ def check_string_positions(chk, tus):
             parsed = _split_two_literals(inner)
             want = [(name, 'mem' + name), ('m' + name, name)]
             ok = parsed is not None and (parsed[0].decode('latin-1'), parsed[1].decode('latin-1')) in want
-            chk.expect(ok, 'R11.7', 'resolve-literal[%s]' % label,
+            chk.expect(ok, rule, 'resolve-literal[%s]' % label,
                        'an import named %s is looked up with resolve(%s): the arguments are not C string literals denoting the module and field '
                        'name (a quote, backslash or line break in a valid wasm name breaks or changes the generated C)' % (label, inner[:80]),
                        'wasmCWriteInitImportValue:string-literal')
@@ -391,7 +391,7 @@ def check_string_positions(chk, tus):
         chk.require(rows, 'FuncExports row not found for %s' % label)
         for r_ in rows:
             lit = _one_literal(r_)
-            chk.expect(lit is not None and lit.decode('latin-1') == name, 'R11.7', 'export-name-literal[%s]' % label,
+            chk.expect(lit is not None and lit.decode('latin-1') == name, rule, 'export-name-literal[%s]' % label,
                        'the export named %s is listed in the FuncExports table as %s, which is not a C string literal denoting that name'
                        % (label, r_[:80]), 'wasmCWriteModuleFunctionExportsArray:string-literal')
 
